@@ -166,6 +166,7 @@ Fixpoint shape (p : alg) : bool :=
   | Graph _ q => shape q
   | Project q _ => shape q
   | Distinct q => shape q
+  | Slice _ _ => false       (* outside the proved fragment *)
   end.
 
 (* the members of a LeftJoin / Extend result *)
@@ -453,6 +454,7 @@ Proof.
       * injection L as <-. left. apply (D ng Ing).
       * apply (IHp S (snd ng) x (proj2 (D ng Ing)) Ix v t L).
   - cbn [eval_bu] in I. apply (proj1 (dedup_in _ _)) in I. now apply (IHp S g0 m Gg I).
+  - discriminate S.
 Qed.
 
 (* rdflib's comparison operators are the specification's on terms that are not
